@@ -12,6 +12,7 @@ mod replay;
 mod report;
 mod scenario;
 mod scripted;
+mod storex;
 
 use e1::*;
 use report::Report;
@@ -32,6 +33,11 @@ fn main() {
             eprintln!("panic: {info}");
         }
     }));
+    // SQLite keeps global allocation statistics behind one mutex; with 16 worker threads that mutex is the
+    // bottleneck of every SQLite-heavy engine. Statistics are not needed here.
+    unsafe {
+        rusqlite::ffi::sqlite3_config(rusqlite::ffi::SQLITE_CONFIG_MEMSTATUS, 0i32);
+    }
     let code = match args[1].as_str() {
         "check" => {
             if args.len() < 4 {
@@ -46,6 +52,9 @@ fn main() {
                 "C05" => c05check(tier),
                 "C07" => c07(tier),
                 "C08" => c08(tier),
+                "C09" => { let mut rep = Report::new("C09", tier, "model_checking"); rep.rule = "every sequence of storage operations up to the tier's depth over the snapshot alphabet (writes inside and outside the snapshot scope on 2 groups, create/rollback/release/prune, 2 names), both backends + reference model compared on every return value and on the whole read surface; distinct = distinct reference-model states".into(); storex::check_c09(&mut rep, tier != "quick"); rep.finish() }
+                "C10" => { let mut rep = Report::new("C10", tier, "model_checking"); rep.rule = "every sequence of storage operations up to the tier's depth over four colliding alphabets (groups/relays/secrets, messages, dedup records and welcomes, snapshots + OpenMLS writes); memory, SQLite and a plain reference model compared on every return value and on every read method with every pagination triple; distinct = distinct reference-model states".into(); storex::check_c10(&mut rep, tier != "quick"); rep.finish() }
+                "C18" => { let mut rep = Report::new("C18", tier, "model_checking"); rep.rule = "message alphabet with ties on created_at and processed_at: every sequence up to the tier's depth, listings in both sort orders with every (limit, offset) compared with the documented total order; every store/invalidate sequence through update_last_message_if_newer checked for pointer == head of valid messages".into(); storex::check_c18(&mut rep, tier != "quick"); rep.finish() }
                 "C11" => c11check(tier),
                 "C14" => c14(tier),
                 "C16" => c16check(tier),
@@ -53,6 +62,7 @@ fn main() {
                 _ => usage(),
             }
         }
+        "bench" => { bench_storex(); 0 }
         "replay" => {
             if args.len() < 4 {
                 usage();
@@ -359,4 +369,25 @@ fn c16check(tier: &str) -> i32 {
     }
     run_e1(jobs, &|cx, rep, _| props_e1::check_c16(cx, rep), &mut rep);
     rep.finish()
+}
+
+#[allow(dead_code)]
+pub fn bench_storex() {
+    use std::time::Instant;
+    let t = Instant::now();
+    for _ in 0..200 { let _ = mdk_memory_storage::MdkMemoryStorage::default(); }
+    eprintln!("memory default: {:?}/op", t.elapsed() / 200);
+    let t = Instant::now();
+    for _ in 0..200 { let _ = mdk_sqlite_storage::MdkSqliteStorage::verif_new_in_memory().unwrap(); }
+    eprintln!("sqlite in-memory: {:?}/op", t.elapsed() / 200);
+    let (a, pools) = storex::alphabet("messages", false);
+    let mem = mdk_memory_storage::MdkMemoryStorage::default();
+    let sql = mdk_sqlite_storage::MdkSqliteStorage::verif_new_in_memory().unwrap();
+    for op in a.iter().take(5) { storex::apply(&mem, op); storex::apply(&sql, op); }
+    let t = Instant::now();
+    for _ in 0..50 { let _ = storex::reads(&mem, &pools); }
+    eprintln!("reads memory: {:?}", t.elapsed() / 50);
+    let t = Instant::now();
+    for _ in 0..50 { let _ = storex::reads(&sql, &pools); }
+    eprintln!("reads sqlite: {:?}", t.elapsed() / 50);
 }
